@@ -42,7 +42,11 @@ def cq_search(repo, prop, tier, seed=1):
         if exe is None:
             res.update({"status": "not_run", "reason": "driver does not build against this tree: " + err, "wall_s": round(time.time() - t0, 2)})
             return res
-        p = subprocess.run([exe, "search", str(depth), str(nrandom), str(seed), prop], stdout=subprocess.PIPE, stderr=subprocess.PIPE, timeout=3000)
+        try:
+            p = subprocess.run([exe, "search", str(depth), str(nrandom), str(seed), prop], stdout=subprocess.PIPE, stderr=subprocess.PIPE, timeout=(1800 if tier == "thorough" else 300))
+        except subprocess.TimeoutExpired:
+            res.update({"status": "not_run", "reason": "bounded replay exceeded its time limit", "wall_s": round(time.time() - t0, 2)})
+            return res
         line = (p.stdout.decode("utf8", "replace").strip().splitlines() or ["{}"])[-1]
         try:
             j = json.loads(line)
